@@ -77,6 +77,172 @@ pub fn o_token(s: &String, st: &mut Stats) -> Result<(), String> {
     Ok(())
 }
 
+// ---------------------------------------------------------------------------------------------
+// every position of a fixed base set (the statement says "at every possible position")
+
+#[derive(Clone, Debug, serde::Serialize, serde::Deserialize)]
+pub struct Positioned {
+    pub text: String,
+    pub expected: String,
+    pub cell: String,
+    pub typed: bool,
+}
+
+fn base_tuples() -> Vec<crate::spell::Tuple> {
+    use crate::spell::Tuple;
+    let t = |ty: &str, ns: &[&str], name: &str, version: Option<&str>, quals: &[(&str, &str)], ck: &[(&str, &[u8])], sub: &[&str]| Tuple {
+        ty: ty.into(),
+        ns: ns.iter().map(|s| s.to_string()).collect(),
+        name: name.into(),
+        version: version.map(str::to_string),
+        quals: quals.iter().map(|(k, v)| (k.to_string(), v.to_string())).collect(),
+        checksum: ck.iter().map(|(a, b)| (a.to_string(), b.to_vec())).collect(),
+        subpath: sub.iter().map(|s| s.to_string()).collect(),
+    };
+    vec![
+        t("t", &[], "n", None, &[], &[], &[]),
+        t("npm", &["@scope"], "pkg", Some("1.0.0"), &[], &[], &[]),
+        t("maven", &["org.x", "y"], "art", Some("1"), &[("classifier", "src"), ("type", "jar")], &[], &[]),
+        t("golang", &["github.com", "a", "b"], "c", Some("v1"), &[], &[], &["cmd", "x"]),
+        t("pypi", &[], "A_b", Some("2"), &[("k", "v w")], &[("sha1", &[0, 255])], &["s"]),
+        t("nuget", &[], "Néwton", None, &[("repository_url", "https://x/y?z")], &[("a", &[1]), ("B", &[2, 3])], &[]),
+        t("x.y+z-1", &["a b", "ç"], "n@m", Some("1/2"), &[("a", "="), ("b.c", "&")], &[], &["d e", "f"]),
+        t("cargo", &[], "name", Some("0.1.0"), &[("k1", "v1"), ("k2", "v2"), ("k3", "v3")], &[], &["a", "b", "c"]),
+        t("gem", &[], "g", Some("é"), &[], &[], &["ü"]),
+    ]
+}
+
+fn positioned_cases() -> &'static Vec<Positioned> {
+    use crate::fault::BAD_UTF8;
+    use crate::spell::{spell, SubPiece};
+    static CASES: std::sync::OnceLock<Vec<Positioned>> = std::sync::OnceLock::new();
+    CASES.get_or_init(|| {
+        let mut out = Vec::new();
+        for t in base_tuples() {
+            let typed = crate::api::known_type_index(&t.ty).is_some();
+            let base = spell(&t, &[]);
+            let mut push = |sp: &crate::spell::Spelled, expected: &str, cell: &str| {
+                out.push(Positioned { text: sp.assemble(), expected: expected.to_string(), cell: cell.to_string(), typed });
+            };
+            let patterns: Vec<(&str, &str, &str)> = BAD_UTF8
+                .iter()
+                .map(|p| (*p, "InvalidEscape", "invalid-utf8"))
+                .collect();
+            // escapes at every unit boundary of every decoded component
+            for (pat, expected, cell) in &patterns {
+                for pos in 0..=base.name.len() {
+                    let mut sp = base.clone();
+                    sp.name.insert(pos, pat.to_string());
+                    push(&sp, expected, &format!("{cell}:name"));
+                }
+                if let Some(v) = &base.version {
+                    for pos in 0..=v.len() {
+                        let mut sp = base.clone();
+                        sp.version.as_mut().unwrap().insert(pos, pat.to_string());
+                        push(&sp, expected, &format!("{cell}:version"));
+                    }
+                }
+                for (i, seg) in base.ns.iter().enumerate() {
+                    for pos in 0..=seg.len() {
+                        let mut sp = base.clone();
+                        sp.ns[i].insert(pos, pat.to_string());
+                        push(&sp, expected, &format!("{cell}:namespace"));
+                    }
+                }
+                for (i, item) in base.items.iter().enumerate() {
+                    for pos in 0..=item.1.len() {
+                        let mut sp = base.clone();
+                        sp.items[i].1.insert(pos, pat.to_string());
+                        push(&sp, expected, &format!("{cell}:qualifier-value"));
+                    }
+                }
+                if let Some(sub) = &base.sub {
+                    for (i, piece) in sub.iter().enumerate() {
+                        if let SubPiece::Real(units) = piece {
+                            for pos in 0..=units.len() {
+                                let mut sp = base.clone();
+                                if let SubPiece::Real(u) = &mut sp.sub.as_mut().unwrap()[i] {
+                                    u.insert(pos, pat.to_string());
+                                }
+                                push(&sp, expected, &format!("{cell}:subpath"));
+                            }
+                        }
+                    }
+                }
+            }
+            // a hidden '/' at every position of every namespace / subpath segment
+            for pat in ["%2F", "%2f"] {
+                for (i, seg) in base.ns.iter().enumerate() {
+                    for pos in 0..=seg.len() {
+                        let mut sp = base.clone();
+                        sp.ns[i].insert(pos, pat.to_string());
+                        push(&sp, "InvalidEscape", "hidden-slash:namespace");
+                    }
+                }
+                if let Some(sub) = &base.sub {
+                    for (i, piece) in sub.iter().enumerate() {
+                        if let SubPiece::Real(units) = piece {
+                            for pos in 0..=units.len() {
+                                let mut sp = base.clone();
+                                if let SubPiece::Real(u) = &mut sp.sub.as_mut().unwrap()[i] {
+                                    u.insert(pos, pat.to_string());
+                                }
+                                push(&sp, "InvalidEscape", "hidden-slash:subpath");
+                            }
+                        }
+                    }
+                }
+            }
+            // an invalid character at every position of the type
+            for bad in ["!", " ", "%41", "é", "@", ":", "_", "~", "*", "\u{212A}", "=", "&", ",", "ſ", "%2B", "\u{0}", "\u{7f}", "\"", "<", "|", "\\"] {
+                let chars: Vec<char> = base.ty.chars().collect();
+                for pos in 0..=chars.len() {
+                    let mut sp = base.clone();
+                    let mut ty: String = chars[..pos].iter().collect();
+                    ty.push_str(bad);
+                    ty.extend(chars[pos..].iter());
+                    sp.ty = ty;
+                    push(&sp, "InvalidPackageType", "bad-type");
+                }
+            }
+            // a qualifier item without '=' / with a bad key at every item position
+            for at in 0..=base.items.len() {
+                for (key, value) in [("k", None), ("a%3Db", None), ("", Some("v")), ("a b", Some("v")), ("ké", Some("")), ("%6B", Some("v")), ("a+b", Some(""))] {
+                    let mut sp = base.clone();
+                    match value {
+                        Some(v) => sp.items.insert(at, (key.to_string(), if v.is_empty() { vec![] } else { vec![v.to_string()] }, false)),
+                        None => sp.items.insert(at, (format!("\u{1}{key}"), vec![], false)),
+                    }
+                    let text = sp.assemble().replace(&format!("\u{1}{key}="), key);
+                    out.push(Positioned { text, expected: "InvalidQualifier".into(), cell: "bad-item".into(), typed });
+                }
+            }
+            // any character before the scheme
+            for c in [' ', '/', ':', 'x', 'P', '\u{feff}', '%', '\n', '\u{0}', 'é'] {
+                out.push(Positioned { text: format!("{c}{}", base.assemble()), expected: "UnsupportedUrlScheme".into(), cell: "scheme".into(), typed });
+            }
+        }
+        out
+    })
+}
+
+fn o_positioned(c: &Positioned, st: &mut Stats) -> Result<(), String> {
+    refused_with::<IStr>(&c.text, &c.expected)?;
+    refused_with::<ISmall>(&c.text, &c.expected)?;
+    if c.typed {
+        refused_with::<ITyped>(&c.text, &format!("Parse({})", c.expected))?;
+    }
+    match c.cell.split(':').next().unwrap_or("") {
+        "invalid-utf8" => st.class("positioned:invalid-utf8"),
+        "hidden-slash" => st.class("positioned:hidden-slash"),
+        "bad-type" => st.class("positioned:bad-type"),
+        "bad-item" => st.class("positioned:bad-item"),
+        _ => st.class("positioned:scheme"),
+    }
+    st.nontrivial(c.text.as_str(), || json!({ "cell": c.cell, "string": c.text, "expected": c.expected }));
+    Ok(())
+}
+
 fn cells(kind: &str) -> Vec<&'static str> {
     match kind {
         "scheme" => vec!["scheme:prefix-removed", "scheme:colon-missing", "scheme:colon-replaced", "scheme:other-scheme", "scheme:char-before"],
@@ -152,6 +318,14 @@ pub fn sections() -> Vec<Box<dyn Section>> {
         }));
     }
     v.push(Box::new(Enumerated {
+        name: "every-position-of-a-fixed-base-set".into(),
+        total: Box::new(|_| positioned_cases().len() as u64),
+        make: Box::new(|_, i| positioned_cases().get(i as usize).cloned()),
+        oracle: o_positioned,
+        required: vec!["positioned:invalid-utf8", "positioned:hidden-slash", "positioned:bad-type", "positioned:bad-item", "positioned:scheme"],
+        complete: true,
+    }));
+    v.push(Box::new(Enumerated {
         name: "token-language-never-accepted".into(),
         total: Box::new(|t: Tier| strata_total(&strata(t.pick(5, 6), t.pick(5, 7)))),
         make: Box::new(|t: Tier, i| strata_make(&strata(t.pick(5, 6), t.pick(5, 7)), i)),
@@ -186,7 +360,10 @@ pub fn prop() -> Prop {
                position with a generated spelling (one section per fault kind, for GenericPurl<String>/<SmallString> and, \
                with one of the seven types as base, for Purl); oracle: refused, and the error variant is the one the \
                statement assigns (wrapped in PackageError::Parse by the typed PURL; UnsupportedType / \
-               MissingRequiredField(Namespace) for the two typed-only kinds). Plus every string of the bounded token \
+               MissingRequiredField(Namespace) for the two typed-only kinds). Plus, for nine fixed base PURLs covering every \
+               component, every invalid-UTF-8 pattern and every hidden '/' at every unit boundary of every decoded \
+               component, every invalid character at every position of the type, a bad item at every item position and a \
+               character before the scheme (complete). Plus every string of the bounded token \
                language for which the independent recogniser M-strict finds a listed defect: never accepted. Every case \
                is a fault case; non-trivial/distinct = distinct faulty strings by hash (token strings distinct by \
                construction). The evidence lists counts per (kind, component/spelling) cell; an empty cell is a harness \
